@@ -1,5 +1,6 @@
 """C12 — ORDER BY returns a correctly sorted permutation; LIMIT its first n rows."""
-import collections, json
+import collections
+import re, json
 from fractions import Fraction
 import vcheck
 import tablelib as T
@@ -228,9 +229,20 @@ def run(ctx):
             excuse(c, {"negative_limit_panic"} if c["parsed"] == "int64" else set(), "LIMIT token not rejected")
         if good and c["outcome"] != "ok":
             ctx.violation({"kind": "valid LIMIT rejected", "case": c})
+        # independent reading of the token text: an int64 literal is an optional sign and DECIMAL digits (leading zeros are decimal,
+        # no base prefix, no underscore); the statement then returns min(value, 12) of the 12 solutions
+        m = re.fullmatch(r'"([+-]?[0-9]+)"\^\^type:int64', c["text"])
+        dec = int(m.group(1)) if m and -2 ** 63 <= int(m.group(1)) < 2 ** 63 else None
+        if c["text"].endswith("^^type:int64") and c["text"].startswith('"'):
+            if (dec is not None) != (c["parsed"] == "int64") or (dec is not None and int(c["int"]) != dec):
+                ctx.violation({"kind": "int64 literal parser oracle does not read the token as the decimal int64 grammar does", "case": c, "decimal": dec})
+        if dec is not None and dec >= 0 and c["outcome"] == "ok" and (int(c["limit"]) != dec or c["rows"] != min(dec, 12)):
+            ctx.violation({"kind": "LIMIT is not the decimal value of its int64 literal", "case": c, "decimal": dec})
     mark("limit+limtok")
     # ---- end to end
     e2e = T.htable(["-mode", "e2e12", "-n", 100 * mult, "-seed", seed])
+    # two statements parsed by ONE parser before either is executed: each must still mean what its own text says
+    e2e += T.htable(["-mode", "seq12", "-n", 15 * mult, "-seed", seed])
     if ctx.tier == "thorough":
         # exhaustive small scope: every key list of length <= 2 x every direction x every limit none, 0..N+1 over four graphs
         e2e += T.htable(["-mode", "grid12"])
